@@ -1,7 +1,7 @@
 #!/bin/sh
 # re-run the check of every kept seeded change (sequentially); prints one line per change
 cd /verif
-for d in seeded/*/; do
+for d in seeded/s-*/; do
   id=$(basename $d)
   prop=$(/venv/bin/python -c "import json;print(json.load(open('$d/meta.json'))['property'])")
   /venv/bin/python tools/seeded.py $id $prop /verif/seeded/$id > /tmp/seeded-$id.log 2>&1
